@@ -723,7 +723,8 @@ def c11_extra_evidence(cases, verdicts):
     hyp_out = sum(1 for c in cases if c.get("k") == "init" and (verdicts.get(c["id"]) or {}).get("hyp") is False)
     csv_in = sum(1 for c in cases if c.get("k") == "csv" and (verdicts.get(c["id"]) or {}).get("hyp") is True)
     csv_out = sum(1 for c in cases if c.get("k") == "csv" and (verdicts.get(c["id"]) or {}).get("hyp") is False)
-    return {"init_cases_inside_theorem_hypotheses": hyp_in, "init_cases_outside_hypotheses_model_only": hyp_out,
+    oor = sum(1 for c in cases if c.get("k") == "init" and isinstance(c.get("impl"), dict) and c["impl"].get("schedule_out_of_range"))
+    return {"init_runs_skipped_solver_schedule_at_f64_max": oor, "init_cases_inside_theorem_hypotheses": hyp_in, "init_cases_outside_hypotheses_model_only": hyp_out,
             "csv_cases_inside_TablesOk": csv_in, "csv_cases_outside_TablesOk_model_only": csv_out}
 
 
@@ -737,22 +738,57 @@ PROP = dict(
     nontrivial=c11_nontrivial,
     extra_evidence=c11_extra_evidence,
     rule="rt/fbits/foreign: the document has a present optional field, an internally tagged enum and an untagged enum "
-         "(matrix: non-empty); distinct = SHA-256 of the canonical case input",
-    modelled="serde derive + serde_json for every struct/enum of format/problem/model.rs, format/solution/model.rs and "
+         "(matrix: non-empty); init: a tour serves a multi-task job, an alternative place, a reload or a break; csv: rows share "
+         "a job id or vehicle rows share a profile; distinct = SHA-256 of the canonical case input",
+    modelled="(1) serde derive + serde_json for every struct/enum of format/problem/model.rs, format/solution/model.rs and "
              "Location/CustomLocationType (schema regenerated by translator T1): field order and names (rename, rename_all), "
              "aliases, skip_serializing_if=Option::is_none, default, Option/Vec, internally tagged / untagged / unit enums, "
-             "integer vs float tokens, i32/i64/usize ranges, unknown fields ignored, missing-field rules",
-    traced="",
-    out_of_model="f64 text printing/parsing (real side only: 1-ulp oracle on arbitrary bit patterns); duplicate keys; "
-                 "struct or enum given as JSON array; non-finite floats; extras.features (geojson) — covered only when absent",
+             "integer vs float tokens, i32/i64/usize ranges, unknown fields ignored, missing-field rules. "
+             "(2) solution_writer::create_tour activity output (stops as runs at one location, jobId/type/jobTag of the used place, "
+             "activity interval, departure activity, single-activity clean-up) + create_unassigned; activity_matcher "
+             "try_match_point_job / match_place (tag of the candidate place, location, window intersection, id rule), vehicle-bound "
+             "job lookup with the duration preference, get_route_start_time; initial_reader bookkeeping (added_jobs, double "
+             "assignment, unassigned list). (3) csv.rs read_csv_problem (typed rows, parse_tw, grouping by ID and sign, vehicle ids, "
+             "shifts, profiles) + the validation rules E1100/E1102/E1103/E1104/E1300/E1301/E1302/E1501",
+    traced="(2) runs on the core solutions of the real solver (pragen problems: multi-task jobs and alternative places with tags, "
+           "reloads, optional breaks; no clustering): the trace is the model's input, the written document and the re-read "
+           "solution are compared with the model's",
+    out_of_model="f64 text printing/parsing (real side only: 1-ulp oracle on arbitrary bit patterns within 1e-5..1e30); duplicate "
+                 "keys; struct or enum given as JSON array; tag given as variant index; non-finite floats; extras.features "
+                 "(geojson) — covered only when absent; required breaks / transit stops (S31) and clustering (commute) in the "
+                 "initial-solution round trip; statistics, loads and times of the re-read solution (recomputed by the solver); "
+                 "CSV text syntax (quoting), order of jobs and profiles after import (hash containers; compared sorted)",
     assumptions=["documents contain finite floats only (serde_json writes null for NaN/inf)",
-                 "Solution.extras.features (geojson FeatureCollection, defined outside the anchored files) is absent"],
+                 "Solution.extras.features (geojson FeatureCollection, defined outside the anchored files) is absent",
+                 "initial-solution theorem: hypotheses initHyp (unique job ids; places of a customer job differ in tag, location "
+                 "or windows further apart than the duration; multi-jobs carry at least as many distinct tags as tasks; every "
+                 "customer activity is served at its place inside a window; vehicle-bound activities resolve to their own marker "
+                 "job — distinct tags for several reloads of one shift; every customer job served or unassigned); evaluated on "
+                 "every run, cases outside are compared with the model only",
+                 "CSV: the rendering of a vehicle id \"{ID}_{seq}\" is injective (seq is a decimal numeral); TablesOk as listed in "
+                 "csv_import_valid_partial; trace times are multiples of 1/4 s (pragen scales by fractions with denominator <= 4)"],
+    timeout={"quick": 900, "thorough": 7200},
 )
 
 META = dict(
-    text="Proof (Lean 4) + differential correspondence — see evidence.",
-    note=COMMON_NOTE,
-    technique="Lean 4 theorems about a schema-directed codec model regenerated from the Rust serde definitions + differential run",
+    text="Proof (Lean 4) in three parts. (1) A schema-directed model of serde derive + serde_json (struct / Option / Vec / "
+         "internally tagged / untagged / unit enums, rename, alias, skip_serializing_if, default; distinct integer and float tokens) "
+         "with the theorem ser(parse(ser d)) = ser d for EVERY document of every nesting depth, under a decidable schema condition "
+         "whose soundness is proved (incl. untagged variant ordering); the schema is regenerated from the Rust definitions by "
+         "translator T1 and the condition is re-proved by `decide` on every run (56 types). (2) init_roundtrip_partial: writing a "
+         "solution and reading it back as initial solution succeeds and gives the same customer-job activities per vehicle shift, in "
+         "order, with the same task and place index and location, and the same unassigned customer set — for all problems and "
+         "solutions satisfying the executable hypotheses (places distinguishable by tag, location or separated windows; no required "
+         "breaks). (3) csv_import_valid_partial / csv_import_carries_data: an import inside TablesOk passes the structural validation "
+         "rules and the document carries exactly the tables' rows (multiset of job rows, list of vehicle rows, set of profiles). "
+         "Tie: typed generator of the real serde structs -> real serialize/deserialize vs the model on identical token trees, a "
+         "foreign-JSON stream (aliases, nulls, extra/missing fields, integer-for-float, wrong kinds) for the decode side, value-level "
+         "parse(ser d) = d through Debug; solver -> write_pragmatic -> real read_init_solution vs the model of writer+reader on the "
+         "real trace; generated tables -> real CSV import -> real validation + read_pragmatic vs the model.",
+    note=COMMON_NOTE + " Known findings carried as fixed corpus cases: S31 (required break as transit stop cannot be read back), "
+         "N10 (serde_json default float parser: 2 ulp outside decimal exponents +-22).",
+    technique="Lean 4 theorems about executable models (schema-directed codec regenerated from source; writer+matcher+reader; CSV "
+              "mapping + validation rules) + differential / trace correspondence with the real code",
 )
 
 CLAIMED = True
